@@ -16,6 +16,8 @@ def get_xorkey(data: bytes) -> int:
 
 
 def apply_xor_key(xorkey: int, data: bytes, node: Node, new_node_type: str) -> Node:
+    if xorkey > 255:
+        return node  # not a single-byte key
     data = bytes(b ^ xorkey for b in data)
     node.children.append(
         Node(
